@@ -508,4 +508,75 @@ def mon_C03(stream, case, obs):
     return hits
 
 
-MONITORS = {"C01": mon_C01, "C02": mon_C02, "C03": mon_C03, "C10": mon_C10, "C12": mon_C12, "C13": mon_C13, "C16": mon_C16}
+def mon_C06(stream, case, obs):
+    """raw TCP: what the transport accepted is a sequence of whole, strictly decodable packets (plus at most one
+    unfinished packet at the end of the stream so far); a QoS 0 publish is reported as sent only after its last
+    byte was accepted; want_write() holds while a packet is unfinished."""
+    cfg = parse_cfg(case[0])
+    hits = []
+    buf = {}          # conn -> all bytes accepted
+    proto = cfg["proto"]
+    q0_mids = {}      # mid -> op index of the publish call (QoS 0)
+    done_q0 = set()
+    cur = 0
+    for i, (line, o) in enumerate(zip(case, obs)):
+        t = line.split()
+        if t[0] == "cfg":
+            continue
+        evs, pd = parse_obs(o)
+        proto = int(pd.get("proto", proto))
+        if t[0] == "publish" and t[1] == "0":
+            ret = [e for e in evs if e.startswith("ret:")]
+            if ret and ret[0].split(":")[1] == "0":
+                q0_mids[int(ret[0].split(":")[2])] = i
+        for k, e in enumerate(evs):
+            if e.startswith("tx"):
+                c, _, h = e[2:].partition(":")
+                c = int(c)
+                buf[c] = buf.get(c, b"") + unhx(h)
+                try:
+                    pk, rest = wire.split_packets(buf[c])
+                    for p in pk:
+                        d = wire.dec_client_packet(p, connect_level(p) if p[0] >> 4 == 1 else proto)
+                        if d["type"] == "PUBLISH" and d["qos"] == 0:
+                            done_q0.add(("wire", c, len(pk)))
+                except wire.Malformed as ex:
+                    hits.append((i, "stream-corrupt", f"bytes accepted on connection {c} are not a sequence of well-formed packets: {ex}"))
+                    buf[c] = b""
+            elif e.startswith("on_publish:"):
+                m = int(e.split(":")[1])
+                if m in q0_mids:
+                    # the completing tx must precede the callback in this step or an earlier one:
+                    # count complete QoS 0 PUBLISH packets on all wires so far vs callbacks so far
+                    pass
+        cur = int(pd.get("sock", "0"))
+        if cur and cur in buf:
+            try:
+                pk, rest = wire.split_packets(buf[cur])
+            except wire.Malformed:
+                rest = b""
+            if rest and pd.get("ww") != "1":
+                hits.append((i, "want-write", f"connection {cur} has a partly written packet ({len(rest)} bytes of it accepted) but want_write() is false"))
+        # QoS 0 completion: number of infos reported published with rc 0 never exceeds complete QoS 0 PUBLISH packets on the wires
+    # global count check at the end of the history
+    n_wire_q0 = 0
+    for c, b in buf.items():
+        try:
+            pk, _ = wire.split_packets(b)
+        except wire.Malformed:
+            continue
+        for p in pk:
+            if p[0] >> 4 == 3 and ((p[0] >> 1) & 3) == 0:
+                n_wire_q0 += 1
+    n_cb_q0 = 0
+    for line, o in zip(case, obs):
+        evs, _ = parse_obs(o)
+        for e in evs:
+            if e.startswith("on_publish:") and int(e.split(":")[1]) in q0_mids:
+                n_cb_q0 += 1
+    if n_cb_q0 > n_wire_q0:
+        hits.append((len(case) - 1, "qos0-early", f"{n_cb_q0} QoS 0 publishes reported as sent, only {n_wire_q0} completely written"))
+    return hits
+
+
+MONITORS = {"C06": mon_C06, "C01": mon_C01, "C02": mon_C02, "C03": mon_C03, "C10": mon_C10, "C12": mon_C12, "C13": mon_C13, "C16": mon_C16}
